@@ -323,6 +323,15 @@ def _jd(o: Any) -> Any:
     return norm(repr(o))
 
 
+def _quiet_unraisable(unraisable: Any) -> None:
+    """A run that was cut short (deadlock, livelock, crashed backend) leaves suspended
+    coroutines and half-open nurseries behind; their destructors complain on stderr when
+    the wreck is freed.  That is noise from an abandoned simulation, not a result."""
+
+
+sys.unraisablehook = _quiet_unraisable
+
+
 # ---------------------------------------------------------------------- livelock watchdog
 # The step cap bounds runs that keep scheduling; it cannot bound a run that never returns
 # to the scheduler (an endless loop *inside* one step, e.g. the standard library walking a
@@ -347,7 +356,8 @@ class _LivelockGuard:
         self.fired = 0
 
     def _tick(self, signum: int, frame: Any) -> None:
-        if PROGRESS[0] != self.last:
+        # (on trio the arrival of the timer signal itself wakes the loop for a step or two)
+        if PROGRESS[0] - self.last > 4 or self.last < 0:
             self.last = PROGRESS[0]
             return
         self.fired += 1
@@ -427,7 +437,12 @@ def run_sim(sim: Sim, main: Callable[[Sim], Any]) -> None:
                 sim.step_limit = True
                 sim.aborting = True
             except BaseException as e:  # noqa: BLE001
-                if sim.livelock is not None:
+                from .trio_rt import deadlock_of
+
+                if deadlock_of(e):
+                    sim.deadlock = True
+                    sim.aborting = True
+                elif sim.livelock is not None:
                     # cut short by the livelock watchdog: a violation of the property under
                     # check (reported by runner.execute as <prop>.livelock), whatever
                     # exception the interrupted backend turned it into
